@@ -438,6 +438,7 @@ def run_check(prop: str, tier: str, seed: int) -> int:
         "case_classes": dict(sorted(classes.items())),
         "shards": nshards,
         "shards_truncated_by_time_cap": truncated,
+        "shard_wall_s": [r["wall_s"] if r else None for r in results],
         "inconclusive_cases": len(inconclusive),
         "inconclusive_examples": inconclusive[:5],
         "verdict": verdict,
